@@ -200,6 +200,10 @@ struct EventSpec {
     values: Vec<Option<Val>>,
     /// explicit parent: index into the span chain (events issued while the chain is entered)
     parent: Option<u8>,
+    /// recorded into span `span` of the chain (fields by index) right BEFORE this event, i.e.
+    /// between two events that both have the span in scope
+    #[serde(default)]
+    record_first: Option<(u8, Vec<(u8, Val)>)>,
 }
 #[derive(Clone, Debug, Serialize, Deserialize)]
 struct Case {
@@ -312,6 +316,29 @@ fn run_case(case: &Case) -> Outcome {
     let fail = |sig: &str, detail: String, line: &str| Outcome::fail(sig.to_string(), format!("{detail}; line = {line:?}; case = {}", serde_json::to_string(case).unwrap_or_default()));
 
     for ev in &case.events {
+        if let (Some((si, rec)), false) = (&ev.record_first, chain.is_empty()) {
+            let k = *si as usize % chain.len();
+            let ms = &mut chain[k];
+            let nf = ms.meta.fields().len();
+            let names_need_escape = ms.meta.fields().iter().any(|f| f.name().chars().any(|c| c == '"' || c == '\\' || (c as u32) < 0x20));
+            if names_need_escape && f10_open {
+                excluded += 1;
+            } else {
+                let mut vals: Vec<Option<Val>> = vec![None; nf];
+                for (fi, v) in rec {
+                    vals[*fi as usize % nf] = Some(v.clone());
+                }
+                let owned: Vec<Option<Owned>> = vals.iter().map(|v| v.as_ref().map(Owned::of)).collect();
+                with_values(ms.meta, &owned, |vs| d.record(&ms.id, &span::Record::new(vs)));
+                for (i, v) in vals.into_iter().enumerate() {
+                    if v.is_some() {
+                        ms.vals[i] = v;
+                    }
+                }
+                classes.push("record_between_two_events".into());
+                multi_record = true;
+            }
+        }
         let meta = event_metas[ev.meta as usize % 3];
         let nf = meta.fields().len();
         let vals: Vec<Option<Val>> = (0..nf).map(|i| ev.values.get(i).cloned().flatten()).collect();
@@ -463,6 +490,8 @@ fn val_strategy() -> BoxedStrategy<Val> {
     ];
     prop_oneof![
         2 => prop_oneof![any::<i64>(), Just(i64::MIN), Just(i64::MAX), Just(0), Just(-1)].prop_map(Val::I64),
+        // small values: replacing one by another keeps the stored text the same length
+        3 => (0i64..10).prop_map(Val::I64),
         2 => prop_oneof![any::<u64>(), Just(u64::MAX), Just(i64::MAX as u64 + 1)].prop_map(Val::U64),
         1 => prop_oneof![any::<i128>(), Just(i128::MIN), Just(i128::MAX)].prop_map(|x| Val::I128(x.to_string())),
         1 => prop_oneof![any::<u128>(), Just(u128::MAX)].prop_map(|x| Val::U128(x.to_string())),
@@ -492,8 +521,9 @@ impl Property for C14 {
     fn strategy(&self, _tier: Tier) -> BoxedStrategy<Case> {
         let ov = || proptest::option::weighted(0.7, val_strategy());
         let span = (0u8..3, proptest::collection::vec(ov(), 6), proptest::collection::vec(proptest::collection::vec((0u8..6, val_strategy()), 1..3), 0..5), 0u8..3).prop_map(|(meta, init, records, before_enter)| SpanSpec { meta, init, records, before_enter });
-        let ev = (0u8..3, proptest::collection::vec(ov(), 5), proptest::option::weighted(0.2, 0u8..3)).prop_map(|(meta, values, parent)| EventSpec { meta, values, parent });
-        (any::<bool>(), proptest::bool::weighted(0.8), proptest::bool::weighted(0.8), any::<bool>(), any::<bool>(), proptest::bool::weighted(0.2), proptest::collection::vec(span, 0..4), proptest::collection::vec(ev, 1..4))
+        let ev = (0u8..3, proptest::collection::vec(ov(), 5), proptest::option::weighted(0.2, 0u8..3), proptest::option::weighted(0.4, (0u8..3, proptest::collection::vec((0u8..6, val_strategy()), 1..3))))
+            .prop_map(|(meta, values, parent, record_first)| EventSpec { meta, values, parent, record_first });
+        (any::<bool>(), proptest::bool::weighted(0.8), proptest::bool::weighted(0.8), any::<bool>(), any::<bool>(), proptest::bool::weighted(0.2), proptest::collection::vec(span, 0..4), proptest::collection::vec(ev, 1..5))
             .prop_map(|(flatten, current_span, span_list, target, level, thread, spans, events)| Case { flatten, current_span, span_list, target, level, thread, spans, events })
             .boxed()
     }
@@ -501,7 +531,7 @@ impl Property for C14 {
         run_case(case)
     }
     fn rule(&self) -> String {
-        "case = JSON formatter options {flatten_event,current_span,span_list,target,level,thread ids/names} x a chain of 0-3 spans (3 span callsites whose names, targets and field names contain quotes, backslashes, tabs, U+2028, non-ASCII, dots, keywords) with generated initial values and 0-4 later record calls (before / after entering) x 1-3 events (3 event callsites incl. control characters in a field name and a newline in the target; optional explicit parent). Values: i64/u64/i128/u128 incl. extremes, f64 incl. NaN, +-inf, -0.0, subnormals and round-trip-critical values, bool, strings over a hostile alphabet + arbitrary chars, bytes, errors, Display/Debug wrappers. non-trivial: something needs escaping, some span is recorded into >= 2 more times, and >= 2 spans are nested; distinct by case".into()
+        "case = JSON formatter options {flatten_event,current_span,span_list,target,level,thread ids/names} x a chain of 0-3 spans (3 span callsites whose names, targets and field names contain quotes, backslashes, tabs, U+2028, non-ASCII, dots, keywords) with generated initial values and 0-4 later record calls (before / after entering) x 1-4 events, each optionally preceded by another record into a span of the chain (so that records happen between two outputs that show the span) (3 event callsites incl. control characters in a field name and a newline in the target; optional explicit parent). Values: i64/u64/i128/u128 incl. extremes, f64 incl. NaN, +-inf, -0.0, subnormals and round-trip-critical values, bool, strings over a hostile alphabet + arbitrary chars, bytes, errors, Display/Debug wrappers. non-trivial: something needs escaping, some span is recorded into >= 2 more times, and >= 2 spans are nested; distinct by case".into()
     }
     fn assumptions(&self) -> Vec<String> {
         vec![
